@@ -135,10 +135,19 @@ class StmtMixin:
 
         def fin(vs, s1):
             cur, rhs = vs
-            if isinstance(s.op, ast.Add) and isinstance(cur, Ref) and s1.obj(cur).kind == 'list':
+            if isinstance(s.op, ast.Add) and isinstance(cur, Ref) and s1.obj(cur).kind in ('list', 'seglist'):
                 h = s1.obj(cur)
-                if isinstance(rhs, Ref) and s1.obj(rhs).kind == 'list':
+                if isinstance(rhs, Ref) and s1.obj(rhs).kind == 'list' and h.kind == 'list':
                     h.items.extend(s1.obj(rhs).items)
+                    return [(NORMAL, s1)]
+                if isinstance(rhs, Ref) and s1.obj(rhs).kind in ('list', 'slist'):
+                    # concatenation with a symbolic-length list: keep the segments
+                    if h.kind == 'list':
+                        h.kind = 'seglist'
+                        h.meta = {'segments': [('items', list(h.items))]}
+                        h.items = None
+                    rh = s1.obj(rhs)
+                    h.meta['segments'] = list(h.meta['segments']) + [('items', list(rh.items)) if rh.kind == 'list' else ('slist', rhs)]
                     return [(NORMAL, s1)]
                 raise EngineError('list += non-list')
             out = []
@@ -375,6 +384,8 @@ class StmtMixin:
                 itv = self.unwrap_opt(itv, s1, 'iter', s.lineno)
             if isinstance(itv, tuple) and len(itv) == 3 and isinstance(itv[0], str) and itv[0] == 'generator':
                 return self.exec_fused_generator(s, itv, s1)
+            if isinstance(itv, Ref) and s1.obj(itv).kind == 'seglist':
+                return self.exec_for_segments(s, s1.obj(itv).meta['segments'], s1)
             if isinstance(itv, Ref) and s1.obj(itv).kind == 'smap':
                 itv = s1.alloc(HObj('smapitems', meta={'map': itv, 'what': 'keys'}))
             seq = self.concrete_iterable(itv, s1)
@@ -385,6 +396,33 @@ class StmtMixin:
                 raise EngineError(f'for loop over symbolic iterable without invariant at line {s.lineno}')
             return self.exec_loop_with_invariant(s, s1, spec, kind='for', iterable=itv)
         return self.lift(self.eval(s.iter, st), fin)
+
+    def exec_for_segments(self, s, segments, st):
+        """for-loop over a concatenation of concrete and symbolic-length lists: the segments are traversed in
+        order, concrete ones unrolled, symbolic ones by the loop rule."""
+        if s.orelse:
+            raise EngineError('for/else over a concatenated list')
+        live = [st]
+        done = []
+        for kind, seg in segments:
+            nxt = []
+            for s1 in live:
+                if kind == 'items':
+                    res = self.unroll_for(s, seg, s1)
+                else:
+                    spec = self.loop_spec(s)
+                    if spec is None:
+                        raise EngineError(f'for loop over symbolic list segment without invariant at line {s.lineno}')
+                    res = self.exec_loop_with_invariant(s, s1, spec, kind='for', iterable=seg)
+                for o, s2 in res:
+                    if o[0] == 'normal':
+                        nxt.append(s2)
+                    else:
+                        done.append((o, s2))   # break is not supported here: would need to stop later segments
+                        if o[0] == 'break':
+                            raise EngineError('break inside a loop over a concatenated list')
+            live = nxt
+        return done + [(NORMAL, s1) for s1 in live]
 
     def exec_fused_generator(self, s, gen, st):
         _, finfo, genv = gen
